@@ -216,7 +216,7 @@ def run(ck, a):
       for new, old in enumerate(order):
         goals = [E(o2[0][new, c], o1[0][old, c]) for c in range(3)] + [E(o2[2][new, c], o1[2][old, c]) for c in range(3)] + [E(o2[3][new, c], o1[3][old, c]) for c in range(3)]
         goals.append(z3.Or(z3.And([E(o2[1][new, c], o1[1][old, c]) for c in range(4)]), z3.And([E(o2[1][new, c], core.s_neg(o1[1][old, c])) for c in range(4)])))
-        ck.add(Ob('sibling-order/%s/link%d' % (tag, old), side, z3.And(goals), timeout=120, meta={'tag': tag, 'xml2': xml2}))
+        ck.add(Ob('sibling-order/%s/link%d' % (tag, old), side, z3.And(goals), timeout=120, meta={'tag': tag, 'xml2': xml2, 'order': list(order)}))
 
   # ---- disconnected components evolve as each would alone
   specA = models.tree_model(random.Random(21), ['h'], free_root=True, ortho=True, limits_p=1.0)
@@ -313,8 +313,28 @@ def run(ck, a):
         if max(e1, e2, e3) > 1e-7:
           return True, {'xml': xml, 'pipeline': pname, 'q': q.tolist(), 'qd': qd.tolist(), 'act': np.asarray(act).tolist(), 'R_quat': Rq.tolist(), 't': tt.tolist(),
                         'errors': {'pos': float(e1), 'vel': float(e2), 'q': float(e3)}}
+      elif 'order' in ob.meta:
+        s2 = mjcf.loads(ob.meta['xml2'])
+        order = ob.meta['order']
+        # permute the state: link `old` of document 1 is link `new` of document 2
+        def layout(sy):
+          offs, o_, d_ = [], 0, 0
+          for t2 in sy.link_types:
+            nq_, nd_ = (7, 6) if t2 == 'f' else (int(t2), int(t2))
+            offs.append((o_, nq_, d_, nd_))
+            o_ += nq_
+            d_ += nd_
+          return offs
+        l1 = layout(s)
+        q2 = np.concatenate([q[l1[old][0]:l1[old][0] + l1[old][1]] for old in order])
+        qd2 = np.concatenate([qd[l1[old][2]:l1[old][2] + l1[old][3]] for old in order])
+        o1 = mod.step(s, mod.init(s, jp.array(q), jp.array(qd)), jp.zeros(s.act_size()))
+        o2 = mod.step(s2, mod.init(s2, jp.array(q2), jp.array(qd2)), jp.zeros(s2.act_size()))
+        err = max(float(jp.abs(o2.x.pos[new] - o1.x.pos[old]).max()) for new, old in enumerate(order))
+        if err > 1e-8:
+          return True, {'xml': xml, 'xml_permuted': ob.meta['xml2'], 'pipeline': pname, 'q': q.tolist(), 'qd': qd.tolist(), 'max_position_difference': err}
       else:
-        return True, {'xml': xml, 'pipeline': pname, 'model': ob.model, 'note': 'two-document identity violated (solver model above); second document: ' + str(ob.meta.get('xml2', ''))[:2000]}
+        return True, {'xml': xml, 'pipeline': pname, 'model': ob.model, 'note': 'two-document identity violated (solver model above)'}
     return False, {'why': 'no violating state found by the witness search'}
   for p in ('rigid-transform', 'sibling-order', 'disconnected'):
     ck.replayers[p] = rep
